@@ -99,4 +99,21 @@ PROPS = {
               {"plain": {"workers": 10}, "asan": {"workers": 6}},
               {"plain": {"workers": 10}, "asan": {"workers": 6}}),
     ),
+    "C15": dict(
+        level="exploration",
+        rule=("one run = a history of <=30/40 operations {def function / overload, global, class, add type, add C++ function, use(file), "
+              "two-definition eval aborted by a throwing call, get_state, set_state(any earlier snapshot), local declaration} in plan order but "
+              "executed by 1..3 actor threads, plus background evaluations that run concurrently with the chain (e.g. while set_state removes the "
+              "function they call), interleaved by the seeded scheduler. distinct = hash of the operation list x interleaving; non-trivial = at "
+              "least one set_state executed. Oracle: dictionary model with deep-copied snapshots, compared through ~35 probes after EVERY "
+              "chain operation."),
+        real_vs_stub=REAL,
+        assumptions=COMMON_ASSUME + ["loadable modules are not exercised (active_loaded_modules stays empty)",
+                                     "globals are created, never mutated after creation: a snapshot shares Boxed_Value data with the live table by design, so only presence and identity are compared",
+                                     "user conversions are documented as not part of State and are not generated"],
+        expected_probes=["fault_state_restore", "probe_restored_older_than_latest_snapshot", "probe_background_eval_overlapped_chain_op", "fault_throw_mid_eval"],
+        **two(40, 420,
+              {"asan": {"workers": 10}, "plain": {"workers": 6}},
+              {"asan": {"workers": 10}, "plain": {"workers": 6}}),
+    ),
 }
